@@ -245,7 +245,13 @@ class RuleTable:
             if isinstance(d, (ast.Name, ast.Attribute)):
                 r = self.repo.resolve_expr(m, d)
                 if r is not None and r.kind == "repo" and r.okind == "assign":
+                    dname = d.id if isinstance(d, ast.Name) else None
                     d, dm = r.node, r.mod
+                    if isinstance(d, ast.Dict) and dname is not None and dm is m:
+                        # module-level growth of the table before it is iterated: TABLE.update(<pairs>) / TABLE[k] = v
+                        d = self._with_module_updates(m, dname, d, env)
+                        if d is None:
+                            return None
             if isinstance(d, ast.Call) and not d.keywords and not any(isinstance(a_, ast.Starred) for a_ in d.args):
                 # factory(a, b).items(): a module-level function whose only statement of substance is `return {..}`
                 dv = subst(d, env)
@@ -293,6 +299,56 @@ class RuleTable:
                     return [_Foreign(r.mod, e) for e in r.node.elts]
                 return list(r.node.elts)
         return None
+
+    def _with_module_updates(self, m, name, disp, env):
+        """the dict display bound to `name` at module level together with the entries later module-level statements
+        add to it (NAME.update(pairs / display / k=v), NAME[k] = v); None when a mutation cannot be interpreted (the
+        table is then undecided - never silently partial)"""
+        keys, vals = list(disp.keys), list(disp.values)
+        for st in m.tree.body:
+            muts = [x for x in ast.walk(st) if (isinstance(x, ast.Call) and isinstance(x.func, ast.Attribute) and isinstance(x.func.value, ast.Name) and x.func.value.id == name and x.func.attr in ("update", "setdefault", "pop", "popitem", "clear", "__setitem__")) or (isinstance(x, (ast.Assign, ast.AugAssign, ast.Delete)) and any(isinstance(t_, ast.Subscript) and isinstance(t_.value, ast.Name) and t_.value.id == name for t_ in (x.targets if isinstance(x, (ast.Assign, ast.Delete)) else [x.target])))]
+            if not muts:
+                continue
+            if isinstance(st, (ast.FunctionDef, ast.AsyncFunctionDef, ast.ClassDef)):
+                continue  # (a function that mutates the table when CALLED: not module-level growth)
+            if len(muts) != 1:
+                return None
+            x = muts[0]
+            if isinstance(st, ast.Assign) and x is st and len(st.targets) == 1:
+                keys.append(st.targets[0].slice)
+                vals.append(st.value)
+                continue
+            if isinstance(st, ast.Expr) and st.value is x and x.func.attr == "update" and len(x.args) <= 1:
+                if x.args:
+                    a0 = x.args[0]
+                    if isinstance(a0, ast.Dict) and all(k is not None for k in a0.keys):
+                        keys.extend(a0.keys)
+                        vals.extend(a0.values)
+                    elif isinstance(a0, (ast.GeneratorExp, ast.ListComp)) and len(a0.generators) == 1 and not a0.generators[0].ifs and isinstance(a0.elt, ast.Tuple) and len(a0.elt.elts) == 2:
+                        g_ = a0.generators[0]
+                        src_ = self._literal_elts(m, g_.iter, env)
+                        if src_ is None or any(isinstance(e_, _Foreign) for e_ in src_):
+                            return None
+                        for e_ in src_:
+                            env2 = dict(env)
+                            if not _bind_loop_target(g_.target, e_, env2):
+                                return None
+                            keys.append(subst(a0.elt.elts[0], env2))
+                            vals.append(subst(a0.elt.elts[1], env2))
+                    elif isinstance(a0, (ast.List, ast.Tuple)) and all(isinstance(e_, ast.Tuple) and len(e_.elts) == 2 for e_ in a0.elts):
+                        for e_ in a0.elts:
+                            keys.append(e_.elts[0])
+                            vals.append(e_.elts[1])
+                    else:
+                        return None
+                for k_ in x.keywords:
+                    if k_.arg is None:
+                        return None
+                    keys.append(ast.Constant(value=k_.arg))
+                    vals.append(k_.value)
+                continue
+            return None
+        return ast.Dict(keys=keys, values=vals)
 
     def _synth_class(self, m, e):
         """the class object built by type(<name>, (<bases>,), {<constant attribute names>: values}): a synthetic class
